@@ -51,7 +51,8 @@ func vhRunNoPanic() {
 		}
 		d.ents = append(d.ents, &vEnt{alias: alias, cfg: cfg, meta: meta, art: art, parent: i - 1})
 	}
-	strat := []UpdateStrategy{UpdateMissing | UpdateChanged, UpdateChanged, UpdateNewerConfig | UpdateExpired, UpdateAll, UpdateNone}[vChoose("strat", 5)]
+	strat := []UpdateStrategy{UpdateMissing | UpdateChanged, UpdateChanged, UpdateNewerConfig | UpdateExpired, UpdateAll, UpdateNone,
+		UpdateExpired, UpdateExpired | UpdateChanged, UpdateNewerConfig}[vChoose("strat", 8)]
 	list, err := PlanBulkUpdate(d, strat)
 	if err != nil {
 		vReach("plan-error")
